@@ -886,34 +886,48 @@ def worker(args):
     try:
         with st.server() as srv:
             r = st.r
-            for _ in range(rounds):
-                kind = r.choice(["claim", "claim", "claim", "rename", "firstjoin", "order", "limit", "fifo", "churn", "flood",
-                                 "stall", "quitflood"] if only is None else only)
-                if kind == "claim":
-                    st.w_claim(srv, r.choice([4, 8, 16]), r.choice(["nick-then-user", "user-then-nick", "one-segment"]))
-                elif kind == "rename":
-                    st.w_rename(srv, r.choice([4, 8, 12]))
-                elif kind == "firstjoin":
-                    st.w_firstjoin(srv, r.choice([6, 12]))
-                elif kind == "order":
-                    st.w_firstjoin_order(srv, r.choice([6, 10]))
-                elif kind == "limit":
-                    st.w_limit(srv, r.choice([6, 10]), r.choice([1, 2, 3, 5]))
-                elif kind == "fifo":
-                    st.w_order_full(srv, r.choice([3, 5, 12]), r.choice([30, 120]) if quick else r.choice([80, 400]))
-                elif kind == "backlog":
-                    st.w_backlog(srv, 4, 12000)
-                elif kind == "quitflood":
-                    st.w_quit_flood(srv, r.choice([600, 1500]) if quick else r.choice([1500, 4000]))
-                elif kind == "stall":
-                    st.w_stall(srv, r.choice([300, 500]) if quick else r.choice([400, 800]))
-                elif kind == "flood":
-                    st.w_flood(srv, r.choice([400, 1500]) if quick else r.choice([1500, 6000]))
+            kind = None
+            try:
+                for _ in range(rounds):
+                    kind = r.choice(["claim", "claim", "claim", "rename", "firstjoin", "order", "limit", "fifo", "churn",
+                                     "flood", "stall", "quitflood"] if only is None else only)
+                    if kind == "claim":
+                        st.w_claim(srv, r.choice([4, 8, 16]), r.choice(["nick-then-user", "user-then-nick", "one-segment"]))
+                    elif kind == "rename":
+                        st.w_rename(srv, r.choice([4, 8, 12]))
+                    elif kind == "firstjoin":
+                        st.w_firstjoin(srv, r.choice([6, 12]))
+                    elif kind == "order":
+                        st.w_firstjoin_order(srv, r.choice([6, 10]))
+                    elif kind == "limit":
+                        st.w_limit(srv, r.choice([6, 10]), r.choice([1, 2, 3, 5]))
+                    elif kind == "fifo":
+                        st.w_order_full(srv, r.choice([3, 5, 12]), r.choice([30, 120]) if quick else r.choice([80, 400]))
+                    elif kind == "backlog":
+                        st.w_backlog(srv, 4, 12000)
+                    elif kind == "quitflood":
+                        st.w_quit_flood(srv, r.choice([600, 1500]) if quick else r.choice([1500, 4000]))
+                    elif kind == "stall":
+                        st.w_stall(srv, r.choice([300, 500]) if quick else r.choice([400, 800]))
+                    elif kind == "flood":
+                        st.w_flood(srv, r.choice([400, 1500]) if quick else r.choice([1500, 6000]))
+                    else:
+                        st.w_churn(srv, r.choice([6, 10]), 25 if quick else 60)
+                    if len(st.findings) > 8 or not srv.alive():
+                        break
+            except (wire.Closed, wire.Timeout, OSError) as ex:
+                # a harness time-out in the middle of a storm: is it the server?  ("keeps answering every live
+                # connection")
+                state = sut.diagnose(srv)
+                if state == "dead":
+                    st.bad("storm:server-stopped", "the server process ended during a %s round (%r)" % (kind, ex))
+                elif state == "hung":
+                    st.bad("storm:server-hung", "during a %s round the server stopped answering everybody: a fresh "
+                           "connection waited 8 s for the answer to its PING (%r)" % (kind, ex))
                 else:
-                    st.w_churn(srv, r.choice([6, 10]), 25 if quick else 60)
-                if len(st.findings) > 8 or not srv.alive():
-                    break
-            out["windows_passed"] = srv.snap()["windows_passed"] if hooks and srv.alive() else 0
+                    raise
+            hung = any(f[0] in ("storm:server-hung", "storm:server-stopped") for f in st.findings)
+            out["windows_passed"] = srv.snap()["windows_passed"] if hooks and srv.alive() and not hung else 0
     except (wire.Closed, wire.Timeout, OSError, RuntimeError) as ex:
         out["inconclusive"] = "storm: %r" % (ex,)
     out.update(findings=st.findings, rounds=st.rounds, events=st.events, classes=[repr(c) for c in st.classes],
